@@ -463,8 +463,53 @@ def check_outputs(p: G.Program, res: Result = None):
         compare_outputs(p, dg, extract_hashes(outdir, "gen"), trace, res)
         if res is not None:
             res.count("closures-compiled")
+        _recompile_after_edit(p, out, d, outdir, trace, res)
     finally:
         shutil.rmtree(d, ignore_errors=True)
+
+
+def _recompile_after_edit(p: G.Program, out, d, outdir, trace, res):
+    """A definition in ONE file of the closure is edited (preferably in an imported file: only that file is rewritten on disk)
+    and the closure is compiled again into the SAME output directory: every output must carry the hashes of the edited text."""
+    import pyrtma.compile as pc
+
+    ch = G.RandomChooser(len(p.files) * 31 + len(p.defs))
+    msgs = [x for x in p.defs if x.kind in ("message", "signal")]
+    msgs.sort(key=lambda x: (x.file == p.root, x.name))  # definitions of imported files first
+    q = None
+    for m in msgs[:6]:
+        for kind in ("field-rename", "field-type", "id", "field-insert", "field-delete"):
+            q = G.edit(p, m.name, kind, ch)
+            if q is not None:
+                break
+        if q is not None:
+            break
+    if q is None:
+        return
+    changed = [rel for rel, text in q.files.items() if p.files.get(rel) != text]
+    if not changed or set(q.files) != set(p.files):
+        return
+    src = os.path.join(d, "src")
+    for rel in changed:
+        with open(os.path.join(src, rel), "w") as f:
+            f.write(q.files[rel])
+    out2 = G.parse_program(q, dirpath=os.path.join(d, "src2"))
+    if not out2.ok:
+        return
+    dg2 = {n: m_.hash for n, m_ in out2.parser.message_defs.items()}
+    try:
+        pc.compile(defs_files=[out.root], out_dir=outdir, out_name="gen", python=True, javascript=True, matlab=True, c_lang=True,
+                   **p.compile_kwargs())
+    except Exception as e:  # noqa
+        if res is not None:
+            res.inconclusive += 1
+        return
+    trace2 = {"outputs": q.to_json(), "recompiled-into-the-directory-of": p.to_json(), "files-rewritten": changed}
+    compare_outputs(q, dg2, extract_hashes(outdir, "gen"), trace2, res)
+    if res is not None:
+        res.count("closures-recompiled-into-the-same-directory-after-an-edit")
+        if p.root not in changed:
+            res.count("closures-recompiled-after-an-edit-of-an-imported-file-only")
 
 
 # ----------------------------------------------------------------------------------------------
@@ -1279,7 +1324,8 @@ def run(ctx: RunContext) -> int:
 def replay_trace(trace: dict):
     G.quiet()
     if "outputs" in trace:
-        check_outputs(G.Program.from_json(trace["outputs"]))
+        # (a failure of the recompilation step is replayed from the closure that was compiled first)
+        check_outputs(G.Program.from_json(trace.get("recompiled-into-the-directory-of") or trace["outputs"]))
     elif "processes" in trace:
         check_processes([G.Program.from_json(trace["processes"])], black=trace.get("black", False))
     elif trace.get("stamp") == "near-miss":
